@@ -56,6 +56,18 @@ theorem sign_verify_on_curve (r k s : Int) :
   rw [smul_mod_L, add_smul, mul_smul, smul_neg]
   abel
 
+/-- **unblinding inverts blinding** on multiples of the base point (C15): if `b · b' ≡ 1 (mod L)` then `b' • (b • A) = A` for `A = s • B` —
+the group-level content of `UnblindPublicKey(BlindPublicKey(pk))= pk`, where `b'` is what `ModInverse` returns -/
+theorem unblind_blind_on_curve (b b' s : Int) (h : (b * b') % Proofs.ScHelp.L = 1) :
+    b' • (b • (s • basePoint)) = s • basePoint := by
+  have e : b * b' = 1 + Proofs.ScHelp.L * (b * b' / Proofs.ScHelp.L) := by
+    have := Int.emod_add_mul_ediv (b * b') Proofs.ScHelp.L
+    rw [h] at this; exact this.symm
+  rw [smul_smul, smul_smul, Int.mul_comm b' b, e, add_mul, one_mul, add_smul, Int.mul_assoc, mul_smul, smul_comm, order_B, smul_zero, add_zero]
+
+/-- blinding twice commutes (C15) — in any commutative group, stated here for the curve -/
+theorem blind_comm_on_curve (b c : Int) (g : EdPoint) : b • (c • g) = c • (b • g) := smul_comm b c g
+
 /-- `Point.Negate` on representations -/
 theorem Point_Negate_repr (v p : Point) (g : EdPoint) (hp : ReprP3 p g) : ReprP3 (Point_Negate v p) (-g) := by
   obtain ⟨vp, ap⟩ := hp
